@@ -259,14 +259,16 @@ def run_c27(ctx):
                 env={"GOMAXPROCS": "6"})
     ctx.log(p.stdout.strip().splitlines()[-1])
     trace = vlib.read_ndjson(ctx.path("trace.ndjson"))
-    if len(trace) != len(cases):
-        raise vlib.Infra("driver executed %d of %d cases" % (len(trace), len(cases)))
+    nbase = sum(1 for r in trace if r["kind"] == "baseline")
+    baseline_ok = all(r["ok"] for r in trace if r["kind"] == "baseline")
+    if nbase != 4 or (baseline_ok and len(trace) != len(cases) + nbase):
+        raise vlib.Infra("driver executed %d of %d cases (%d baseline lines)" % (len(trace) - nbase, len(cases), nbase))
 
     # 3. TV against the model of the code
     n, flagged = ctx.validate_cases("AuditLogTamperTrace", "AuditLog.TamperTrace.cfg", ctx.path("trace.ndjson"),
                                     subst={"Deviations": ctx.deviations("D-C27")}, timeout=2400)
     ctx.evaluations = n
-    tam = [r for r in trace if r["kind"] != "rt"]
+    tam = [r for r in trace if r["kind"] not in ("rt", "baseline")]
     rejected = [r for r in tam if r["applied"] and not r["ok"]]
     ctx.extra["distinct_nontrivial"] = len(rejected)
     ctx.extra["tamper_cases"] = ntamper
@@ -278,6 +280,33 @@ def run_c27(ctx):
     for r in tam:
         reasons[r["reason"] or "accepted"] = reasons.get(r["reason"] or "accepted", 0) + 1
     ctx.extra["verdict_reasons"] = reasons
+    malformed = []
+    for r in flagged:
+        line = trace[r["l"] - 1]
+        if r["verdict"] == "finding" and r["tag"]:
+            ctx.finding(r["tag"], line)
+        elif r["verdict"] == "malformed":
+            malformed.append(line)
+        else:
+            vlib.write_ndjson(ctx.path("replay.ndjson"), [line])
+            if line["kind"] == "rt":
+                msg = "serializer round trip changed %s (%s): case %s" % (line["diff"], line["err"], json.dumps(line)[:500])
+            elif line["kind"] == "baseline":
+                msg = "the untampered log written by the middleware does not verify: %s" % json.dumps(line)
+            elif r["verdict"] == "notapplied":
+                msg = ("the planted change of %s did not survive Encode/Decode (decoded entry differs in %s): %s" %
+                       ([line["field"], line["field2"]], line["changed"], json.dumps(line)[:500]))
+            elif r["verdict"] == "finding":
+                msg = "undetected tampering not explained by a known deviation: %s" % json.dumps(line)[:700]
+            else:
+                msg = ("real verdict %s (%s) but the model of validation.go says %s (%s): %s" %
+                       ("accept" if line["ok"] else "reject", line["reason"],
+                        "accept" if r["model_accepts"] else "reject", r["model_reason"], json.dumps(line)[:600]))
+            ctx.violation(ctx.path("replay.ndjson"), msg)
+    if ctx.violations:
+        return "violation reported"
+    if malformed:
+        raise vlib.Infra("malformed case lines: %s" % json.dumps(malformed[0])[:600])
     fields_hit = set((r["field"], r["ser"]) for r in tam if r["kind"] == "field" and r["applied"])
     if len(fields_hit) < 2 * 27:
         raise vlib.Infra("only %d (field, serializer) pairs were tampered with" % len(fields_hit))
@@ -286,23 +315,6 @@ def run_c27(ctx):
     ctx.sample(tam[0])
     ctx.sample(next(r for r in tam if r["kind"] == "field" and r["applied"]))
     ctx.sample(next(r for r in trace if r["kind"] == "rt"))
-    for r in flagged:
-        line = trace[r["l"] - 1]
-        if r["verdict"] == "finding" and r["tag"]:
-            ctx.finding(r["tag"], line)
-        elif r["verdict"] in ("malformed", "notapplied"):
-            raise vlib.Infra("case %s: %s" % (json.dumps(line)[:600], r["verdict"]))
-        else:
-            vlib.write_ndjson(ctx.path("replay.ndjson"), [line])
-            if line["kind"] == "rt":
-                msg = "serializer round trip changed %s (%s): case %s" % (line["diff"], line["err"], json.dumps(line)[:500])
-            elif r["verdict"] == "finding":
-                msg = "undetected tampering not explained by a known deviation: %s" % json.dumps(line)[:700]
-            else:
-                msg = ("real verdict %s (%s) but the model of validation.go says %s (%s): %s" %
-                       ("accept" if line["ok"] else "reject", line["reason"],
-                        "accept" if r["model_accepts"] else "reject", r["model_reason"], json.dumps(line)[:600]))
-            ctx.violation(ctx.path("replay.ndjson"), msg)
 
     # 4. binding self-test: flip one real verdict, add one round-trip difference
     bad = [dict(next(r for r in tam if r["kind"] == "field" and r["applied"] and not r["ok"])),
